@@ -280,7 +280,12 @@ retry_fetch_lv:
 
         // skip callback. will called in findnext
         // expception: if start=end, findnext does not call cb, so need cb here
-        if (range_is_one_point) {
+        // the same holds when start and end only share this tuple and it is a link (the range continues
+        // inside a next layer that does not exist yet): findnext sees last_key == end tuple with an
+        // INCLUSIVE end, takes the callback range for empty and would report no node at all
+        if (range_is_one_point ||
+            (cmp_to_end == 0 && ctx->get_end_point() == scan_endpoint::INCLUSIVE &&
+             key_tup.get_key_length() > sizeof(key_slice_type) && key_tup == ctx->get_end_tuple(0))) {
             if (bnv_cb(target_border->get_version_ptr(), v_at_fetch_lv)) { return status::WARN_ABORTED_BY_USER; }
         }
 
